@@ -40,9 +40,12 @@ pub enum Op {
     Close,
     OpenRaw(usize),
     ByName(usize),
+    /// by_index_decrypt with the right password
+    OpenPw(usize),
 }
 
 type Ar = zip::ZipArchive<Cursor<Vec<u8>>>;
+const PW: &[u8] = b"clone-pw";
 
 /// One handle: the archive lives behind a raw pointer so that an open ZipFile (which borrows
 /// it mutably) can be kept across steps of other handles.
@@ -57,7 +60,7 @@ impl Handle {
     }
     fn step(&mut self, op: Op, names: &[String]) {
         let obs = match op {
-            Op::Open(i) | Op::OpenRaw(i) | Op::ByName(i) => {
+            Op::Open(i) | Op::OpenRaw(i) | Op::ByName(i) | Op::OpenPw(i) => {
                 self.file = None; // the previous borrow ends here
                 // SAFETY: `self.ar` is a live Box; the only reference derived from it is the ZipFile
                 // stored in `self.file`, which was just dropped.
@@ -65,6 +68,11 @@ impl Handle {
                 let r = match op {
                     Op::Open(_) => ar.by_index(i),
                     Op::OpenRaw(_) => ar.by_index_raw(i),
+                    Op::OpenPw(_) => match ar.by_index_decrypt(i, PW) {
+                        Ok(Ok(f)) => Ok(f),
+                        Ok(Err(_)) => Err(zip::result::ZipError::InvalidArchive("<invalid password>")),
+                        Err(e) => Err(e),
+                    },
                     _ => ar.by_name(&names[i]),
                 };
                 match r {
@@ -138,6 +146,11 @@ pub fn scripts() -> Vec<Vec<Op>> {
         vec![OpenRaw(2), ReadToEnd, Open(2), ReadToEnd],
         vec![Open(9), Meta, ByName(0), ReadToEnd],
         vec![Open(2), Read(0), Read(2), Close],
+        // the ZipCrypto entry: undecoded and decrypting opens side by side
+        vec![OpenRaw(4), DataStart, ReadToEnd, DataStart],
+        vec![OpenPw(4), DataStart, ReadToEnd, Meta],
+        vec![OpenPw(4), Read(3), OpenRaw(4), DataStart],
+        vec![Open(4), OpenPw(4), Read(9), DataStart],
     ]
 }
 
@@ -156,11 +169,13 @@ pub fn archive(seed: u64) -> (Vec<u8>, Vec<String>) {
         Call::EndLocalStartCentral,
         Call::EndExtra,
         Call::Write(r.bytes(25)),
+        Call::StartFile { name: "crypto".into(), opts: FOpts { password: Some(PW.to_vec()), ..FOpts::m(8) } },
+        Call::Write(content_class(3, seed ^ 2)),
         Call::Finish,
     ];
     let (res, bytes) = exec(&calls, &[]);
     assert!(res.iter().all(|x| x.is_ok()));
-    (bytes, vec!["stored".into(), "deflated".into(), "zstd".into(), "with-extra".into()])
+    (bytes, vec!["stored".into(), "deflated".into(), "zstd".into(), "with-extra".into(), "crypto".into()])
 }
 
 /// All interleavings of k sequences with the given lengths, as lists of handle indices.
@@ -260,10 +275,11 @@ pub fn run(args: &Args) -> i32 {
     let n = all.len();
     let il2 = interleavings(&[4, 4]);
     let il3 = interleavings(&[4, 4, 4]);
-    let triples = if thorough { 6 } else { 4 };
+    let triple_ids: Vec<usize> = if thorough { vec![0, 1, 2, 3, 4, 5, 12, 13, 14] } else { vec![0, 1, 2, 12, 13] };
+    let triples = triple_ids.len();
     ctx.rule = format!(
-        "E-SEQ at API-call granularity on one thread: handles are archive.clone() (each with its own cloned Cursor) of one 4-entry archive (stored, deflated, zstd+large_file, bzip2 with local-only extra data). {} scripts of 4 operations over {{by_index, by_index_raw, by_name, read(k), read_to_end, data_start/header_start, metadata, close, reopen, out-of-range index}}. \
-         ALL {} interleavings of every ordered pair of scripts ({} pairs) and ALL {} interleavings of every ordered triple over the first {} scripts ({} triples). Oracle: each handle's observation log equals that of its script run alone on a freshly opened archive. \
+        "E-SEQ at API-call granularity on one thread: handles are archive.clone() (each with its own cloned Cursor) of one 5-entry archive (stored, deflated, zstd+large_file, bzip2 with local-only extra data, ZipCrypto+deflated). {} scripts of 4 operations over {{by_index, by_index_raw, by_name, by_index_decrypt, read(k), read_to_end, data_start/header_start, metadata, close, reopen, out-of-range index}}. \
+         ALL {} interleavings of every ordered pair of scripts ({} pairs) and ALL {} interleavings of every ordered triple over {} of the scripts ({} triples). Oracle: each handle's observation log equals that of its script run alone on a freshly opened archive. \
          Plus run-time Send/Sync probes of ZipArchive<Cursor<Vec<u8>>>, ZipArchive<std::fs::File> and &ZipArchive. Thread-level interleavings: separate loom harness (2 threads x 2 entries, 3 threads x 1 entry; all schedules incl. Relaxed visibility). distinct_nontrivial = distinct (script tuple, interleaving) executions (counted).",
         n,
         il2.len(),
@@ -314,7 +330,7 @@ pub fn run(args: &Args) -> i32 {
     let m = triples;
     let s = par_for((m * m * m) as u64, 1, |t, st| {
         let t = t as usize;
-        let (a, b, c) = (t / (m * m), (t / m) % m, t % m);
+        let (a, b, c) = (triple_ids[t / (m * m)], triple_ids[(t / m) % m], triple_ids[t % m]);
         check_tuple(bytes_r, names_r, &[&all_r[a], &all_r[b], &all_r[c]], il3_r, &[&solos_r[a], &solos_r[b], &solos_r[c]], st, (1 << 60) | (t as u64) << 32, &[a, b, c]);
     });
     ctx.stats.merge(s);
